@@ -50,9 +50,11 @@ namespace simdrv {
 
 FILE* g_out = nullptr;
 std::string g_trace_path;
+bool g_teardown = false;
 
 void emit(char const* fmt, ...)
 {
+	if (g_teardown) return;
 	va_list ap;
 	va_start(ap, fmt);
 	vfprintf(g_out, fmt, ap);
